@@ -42,7 +42,7 @@ class G(typing.Generic[T]):
     x: T
     def __init__(self, x): self.x = x
 class NoHints:
-    def __init__(self, a=1): self.a = a
+    def __init__(self, a=1, b=(), c=False, d=None, e="x"): self.a, self.b, self.c, self.d, self.e = a, b, c, d, e
 @dataclasses.dataclass
 class DC:
     a: int
@@ -172,6 +172,18 @@ def child(job):
                     pt.append(f"marshaller({src})({src}(a=2)) did not marshal the instance: {w!r}")
             except Exception as e:  # noqa: BLE001
                 pt.append(f"structured probe raised {type(e).__name__}: {e}"[:160])
+        # the parameters of a class without any annotation cannot be resolved: they are pass-through positions (whatever their defaults)
+        if src == "NoHints":
+            try:
+                for probe in (s, "text", 2.5, [s]):
+                    r = u({"a": probe})
+                    if type(r) is not t or r.a is not probe:
+                        pt.append(f"unmarshaller(NoHints)({{'a': {probe!r}}}).a is not its input: {getattr(r, 'a', r)!r}")
+                    w = m(t(a=probe))
+                    if not (isinstance(w, dict) and w.get("a") is probe):
+                        pt.append(f"marshaller(NoHints)(NoHints(a={probe!r})) did not pass the attribute through: {w!r}")
+            except Exception as e:  # noqa: BLE001
+                pt.append(f"un-annotated parameter probe raised {type(e).__name__}: {e}"[:160])
         inner = job_inner(src)
         if inner in PASS:
             try:
